@@ -14,6 +14,7 @@ Spans are kept, so reports still point at the helper's source lines.  Nothing el
 terminators.  The view is only ever built on request (Ctx.fn(.., inline=True)); a rule that names a helper keeps it out with `keep`.
 """
 import copy
+import os
 import re
 
 from .facts import Fn
@@ -698,12 +699,19 @@ def _thread_known_gotos(d, start=0):
             continue
         dl = tt["discr"]["pl"]["l"]
         tested, via_discr = dl, False
-        for x in tb["st"]:
-            if x.get("s") == "=" and x["lhs"]["l"] == dl and not x["lhs"]["p"]:
-                if x["rv"].get("r") == "discr" and not x["rv"]["pl"]["p"]:
-                    tested, via_discr = x["rv"]["pl"]["l"], True
-                else:
-                    tested = None
+        for _hop in range(3):
+            changed = False
+            for x in tb["st"]:
+                if x.get("s") == "=" and x["lhs"]["l"] == tested and not x["lhs"]["p"]:
+                    if x["rv"].get("r") == "discr" and not x["rv"]["pl"]["p"] and not via_discr:
+                        tested, via_discr, changed = x["rv"]["pl"]["l"], True, True
+                    elif x["rv"].get("r") == "use" and x["rv"]["a"].get("k") in ("copy", "move") and not x["rv"]["a"]["pl"]["p"]:
+                        tested, changed = x["rv"]["a"]["pl"]["l"], True      # `let flag = call(..); if flag` tests a copy
+                    else:
+                        tested = None
+                    break
+            if not changed or tested is None:
+                break
         if tested is None:
             continue
         if via_discr and any(x.get("s") == "=" and x["lhs"]["l"] == tested for x in tb["st"]):
@@ -739,7 +747,10 @@ def view(prog, f, keep=None, depth=2):
     for _round in range(depth + 1):
         cands = candidates(prog, cur, keep) if _round < depth else []
         lows = lower_candidates(prog, cur)
-        if not cands and not lows:
+        from . import chains as _CH
+        import sys as _sys
+        chs = _CH.candidates(prog, cur, _sys.modules[__name__]) if os.environ.get("VERIF_NO_CHAINS") != "1" else []
+        if not cands and not lows and not chs:
             break
         d = {"key": cur.key, "kind": cur.kind, "sp": cur.sp, "argc": cur.argc, "locals": list(cur.locals), "names": copy.deepcopy(cur.names),
              "parent": cur.parent, "impl_self": cur.impl_self, "impl_trait": cur.impl_trait, "name": cur.name,
@@ -789,6 +800,12 @@ def view(prog, f, keep=None, depth=2):
             _lower(d, bidx, spec, g, cl, cur.locals)
             spliced.append(g.skey)
             spliced_keys.append(g.key)
+        done_blocks |= {bidx for bidx, _s, _g, _c in lows}
+        chs = [c_ for c_ in chs if c_[0] not in done_blocks]
+        if chs:
+            for g in _CH.lower(prog, cur, d, chs, _sys.modules[__name__]):
+                spliced.append(g.skey)
+                spliced_keys.append(g.key)
         _thread_known_gotos(d)
         nf = Fn(d, cur.crate)
         nf.inlined = list(spliced)
